@@ -18,6 +18,9 @@ import time
 
 from . import core
 
+# evidence and new replays go here (mutation runs point it elsewhere)
+OUT = os.environ.get('VERIF_OUT', core.VERIF)
+
 
 def _env():
     env = dict(os.environ)
@@ -33,7 +36,7 @@ def _env():
 
 
 def save_replay(pid, part, case, bucket, detail):
-    d = os.path.join(core.VERIF, 'replays')
+    d = os.path.join(OUT, 'replays')
     os.makedirs(d, exist_ok=True)
     fn = os.path.join(d, f'{pid}-{core.case_hash([part, case])}.json')
     with open(fn, 'wt', encoding='utf-8') as f:
@@ -90,11 +93,9 @@ def main(argv=None):
         return replay(pid, args.replay)
 
     t0 = time.time()
-    nshards = args.shards or int(
-        os.environ.get('VERIF_SHARDS', '0')
-        or min(os.cpu_count() or 4, 16 if tier == 'thorough' else 8)
-    )
-    nshards = max(1, nshards)
+    nshards = args.shards or int(os.environ.get('VERIF_SHARDS', '0') or 0)
+    if nshards <= 0:
+        nshards = min(os.cpu_count() or 4, 16 if tier == 'thorough' else 8)
     env = _env()
     procs = []
     with tempfile.TemporaryDirectory(prefix='dawgie-verif-run-') as td:
@@ -250,9 +251,9 @@ def main(argv=None):
         'wall_s': round(time.time() - t0, 2),
         'violations': len(seen),
     }
-    os.makedirs(os.path.join(core.VERIF, 'evidence'), exist_ok=True)
+    os.makedirs(os.path.join(OUT, 'evidence'), exist_ok=True)
     with open(
-        os.path.join(core.VERIF, 'evidence', f'{pid}.json'),
+        os.path.join(OUT, 'evidence', f'{pid}.json'),
         'wt',
         encoding='utf-8',
     ) as f:
